@@ -64,13 +64,13 @@ def cond_strategy(depth=1):
 
 def stmt_strategy(depth=2):
     asg = st.tuples(st.just('a'), st.integers(0, 20), expr_strategy(2))
-    lif = st.tuples(st.just('l'), cond_strategy(1), st.integers(0, 20), expr_strategy(1))
+    lif = st.tuples(st.just('l'), cond_strategy(2), st.integers(0, 20), expr_strategy(1))
     if depth == 0:
         return st.one_of(asg, asg, lif)
     sub = st.lists(stmt_strategy(depth - 1), min_size=1, max_size=3)
     blk = st.tuples(
         st.just('b'),
-        st.lists(st.tuples(cond_strategy(1), sub), min_size=1, max_size=3),
+        st.lists(st.tuples(cond_strategy(2), sub), min_size=1, max_size=3),
         st.one_of(st.none(), sub),
     )
     return st.one_of(asg, asg, asg, lif, blk)
@@ -80,23 +80,21 @@ def code_strategy(max_size=8):
     return st.lists(stmt_strategy(2), min_size=0, max_size=max_size).map(_l)
 
 
-FEATURES = st.fixed_dictionaries(
-    dict(
-        nested_if=st.booleans(),
-        inblock_reassign=st.booleans(),
-        mod=st.booleans(),
-        protected_edges=st.booleans(),
-        unprotected_trig=st.booleans(),
-        pfunc_in_cond=st.booleans(),
-        block_cond_dep=st.booleans(),
-        inblock_dep=st.booleans(),
-        error_reassigns_pk_var=st.booleans(),
-        omega_values=st.booleans(),
-        neg_literal_pow=st.booleans(),
-        nested_pfunc=st.booleans(),
-        rel_shared_symbol=st.booleans(),
-    )
-)
+_KNOWN_SHAPE_FLAGS = [
+    'nested_if', 'inblock_reassign', 'mod', 'pfunc_in_cond', 'block_cond_dep', 'inblock_dep',
+    'error_reassigns_pk_var', 'omega_values', 'neg_literal_pow', 'nested_pfunc', 'rel_shared_symbol',
+]
+
+
+def _features(flag):
+    return st.fixed_dictionaries(dict({fl: flag for fl in _KNOWN_SHAPE_FLAGS}, protected_edges=st.booleans(), unprotected_trig=st.booleans()))
+
+
+# The switchable shapes are the ones violations are attributed to (pv.checks.c01.run_case): a violation that
+# disappears when a shape is switched off counts as that shape's (known) defect. So that an unrelated defect
+# cannot hide behind them, most programs carry few of these shapes (about one in five carries none at all,
+# where no attribution is possible); the rest mixes them freely to keep their interactions covered.
+FEATURES = st.one_of(_features(st.sampled_from([False] * 7 + [True])), _features(st.sampled_from([False] * 7 + [True])), _features(st.booleans()))
 
 NOISE = st.fixed_dictionaries(
     dict(
@@ -207,10 +205,46 @@ def resolve_cond(c, ctx, defs):
             b = ('num', 1.5, '1.5E0')
         return ('rel', o, a, b, sp)
     if op in ('and', 'or') and len(c) == 3:
-        return (op, resolve_cond(c[1], ctx, defs), resolve_cond(c[2], ctx, defs))
+        return unparenthesised((op, resolve_cond(c[1], ctx, defs), resolve_cond(c[2], ctx, defs)))
     if op == 'not' and len(c) == 2:
-        return ('not', resolve_cond(c[1], ctx, defs))
+        return unparenthesised(('not', resolve_cond(c[1], ctx, defs)))
     return ('rel', '>', ('idx', 'THETA', (1,)), ('num', 0.0, '0'), '.GT.')
+
+
+def _first_rel(c):
+    while c[0] != 'rel':
+        c = c[1]
+    return c
+
+
+def unparenthesised(c):
+    """Re-associates a condition so that printing it needs no parentheses around a logical
+    sub-expression: pharmpy's abbreviated-code grammar has no parenthesised logical primary
+    (`(A.OR.B).AND.C` and `.NOT.(A.AND.B)` are refused with a syntax error, i.e. they are outside the
+    supported subset), whereas unparenthesised mixtures such as `A.OR.B.AND.C`, `.NOT.A.GT.B.AND.C` are
+    supported and exercise Fortran's operator precedence. The children are already in that form.
+    The rewriting changes the meaning of the *spec*, not of a program: any well-formed tree will do."""
+    k = c[0]
+    if k == 'not':
+        x = c[1]
+        if x[0] == 'not':
+            return x[1]
+        return ('not', _first_rel(x))
+    if k == 'and':
+        a, b = c[1], c[2]
+        if a[0] == 'or':  # (p.OR.q).AND.b -> p.OR.q.AND.b
+            return unparenthesised(('or', a[1], unparenthesised(('and', a[2], b))))
+        if b[0] == 'and':  # a.AND.(p.AND.q) -> a.AND.p.AND.q
+            return unparenthesised(('and', unparenthesised(('and', a, b[1])), b[2]))
+        if b[0] == 'or':  # a.AND.(p.OR.q) -> a.AND.p.OR.q
+            return unparenthesised(('or', unparenthesised(('and', a, b[1])), b[2]))
+        return c
+    if k == 'or':
+        a, b = c[1], c[2]
+        if b[0] == 'or':
+            return unparenthesised(('or', unparenthesised(('or', a, b[1])), b[2]))
+        return c
+    return c
 
 
 PFUNCS = {'PEXP': 'EXP', 'PLOG': 'LOG', 'PLOG10': 'LOG10', 'PSQRT': 'SQRT', 'PDZ': 'ABS', 'PZR': 'ABS', 'PNP': 'ABS', 'PHE': 'ABS', 'PNG': 'ABS'}
